@@ -41,7 +41,7 @@ Fixpoint ws_next (n : N) (ms : list wsmsg) (e : src_end) : wres * wstate :=
 (* wsStream.Read(buf) with len(buf) = n > 0 *)
 Definition ws_read (n : N) (s : wstate) : wres * wstate :=
   match w_cur s with
-  | Some (_ :: _ as d) => (WData (takeN n d), WS (Some (dropN n d)) (w_msgs s) (w_end s))
+  | Some ((_ :: _) as d) => (WData (takeN n d), WS (Some (dropN n d)) (w_msgs s) (w_end s))
   | _ => ws_next n (w_msgs s) (w_end s)
   end.
 
